@@ -359,6 +359,14 @@ public:
 			UInt x = (*mems.at(t[2]))[asU(t[3])];
 			setU(t[1], x);
 		}
+		else if (op == "memreadf") {   // memreadf NAME MEM ADDR : forward-declared signal, bound to the read port afterwards (its signal node hangs DIRECTLY on the port)
+			auto &m = *mems.at(t[2]);
+			auto p = std::make_shared<Val>(); p->v.emplace<UInt>(m.wordSize()); b.vars[t[1]] = p;
+			p->u() = m[asU(t[3])];
+		}
+		else if (op == "membind") {    // membind NAME MEM ADDR : binds the FORWARD-DECLARED signal NAME (loopvar) to a read port; its earlier consumers hang on NAME's signal node
+			get(t[1]).u() = (*mems.at(t[2]))[asU(t[3])];
+		}
 		else if (op == "stimkey" || op == "clockcfg") { /* read by the main program */ }
 		else if (op == "comment") { /* comments attach to subsequently created nodes */ }
 		else throw std::runtime_error("unknown statement " + op);
